@@ -298,6 +298,33 @@ func ruleReattach(c *Ctx) {
 				okPid = true
 			}
 		}
+		// a caller edits what it gets (Pid, ReattachFunc, Test): every call hands
+		// out a value of its own, never one kept in the Client
+		{
+			var kept ast.Node
+			ast.Inspect(rc.Body, func(x ast.Node) bool {
+				se, ok := x.(*ast.SelectorExpr)
+				if !ok {
+					return true
+				}
+				if fv := SelField(rinfo, se); fv != nil && strings.HasPrefix(p.FieldName(fv), "Client.") {
+					t := fv.Type()
+					if pt, isP := t.Underlying().(*types.Pointer); isP {
+						t = pt.Elem()
+					}
+					if strings.HasSuffix(t.String(), "go-plugin.ReattachConfig") {
+						kept = se
+					}
+				}
+				return true
+			})
+			if kept != nil {
+				c.R.Violate("R-REATTACH", p.Pos(kept), rc.Name, "every call returns its own ReattachConfig",
+					"ReattachConfig() keeps the value it hands out in the Client and returns it again: what one caller sets on it (Test, Pid, ReattachFunc) is what the next caller reattaches with", nil)
+			} else {
+				c.R.Hold("R-REATTACH", p.Pos(rc.Node()), rc.Name, "every call returns its own ReattachConfig", "no Client field of type ReattachConfig is read or written", true)
+			}
+		}
 		if okLit && okPid && okAsIs {
 			c.R.Hold("R-REATTACH", p.Pos(rc.Node()), rc.Name, "reattach config reports what was negotiated", "Protocol and Addr are the client's, Pid the launched process's; an existing reattach config is returned as is", true)
 		} else {
@@ -1485,6 +1512,62 @@ func ruleLogLevels(c *Ctx) {
 		}
 		return true
 	})
+	// every line that was read becomes a log record: from a successful read every
+	// path back to the read passes a call on the logger (a record of a level the
+	// host logger does not emit right now is the logger's to drop, not ours - the
+	// host may change the level while the plugin runs)
+	{
+		g := p.Graph(f)
+		var readN *Node
+		for _, m := range g.Nodes {
+			if m.Ast == nil {
+				continue
+			}
+			for _, call := range callsIn(m.Ast) {
+				if nm := p.CalleeName(f, call); nm == "bufio.Reader.ReadLine" || nm == "bufio.Reader.ReadString" || nm == "bufio.Reader.ReadBytes" || nm == "bufio.Scanner.Scan" {
+					readN = m
+				}
+			}
+		}
+		if readN == nil {
+			c.R.Undecided("R-TABLE/levels", f.Name, "every line is logged", "the read call of the stderr loop was not found")
+		} else {
+			emits := func(m *Node) bool {
+				if m.Ast == nil {
+					return false
+				}
+				for _, call := range callsIn(m.Ast) {
+					if se, ok := call.Fun.(*ast.SelectorExpr); ok && isLogger(se.X) {
+						switch se.Sel.Name {
+						case "Trace", "Debug", "Info", "Warn", "Error", "Log":
+							return true
+						}
+					}
+				}
+				return false
+			}
+			errV := assignedErrVar(info, readN.Ast)
+			seen := g.ReachAfter(readN, emits, func(e *Edge) bool {
+				// the read failed: the loop ends (or retries without a line)
+				at, ok := edgeAtom(info, e)
+				if ok && at.Kind == "nil" && at.Op == token.NEQ && errV != nil && identObj(info, at.X) == types.Object(errV) {
+					return true
+				}
+				// an empty chunk (the end-of-line remainder of a line that exactly
+				// filled the buffer) carries no data to log
+				if ok && at.Kind == "len" && ((at.Op == token.EQL && at.K == 0) || (at.Op == token.LSS && at.K == 1) || (at.Op == token.LEQ && at.K == 0)) {
+					return true
+				}
+				return false
+			})
+			if _, again := seen[readN]; again {
+				c.R.Violate("R-TABLE/levels", p.Pos(readN.Ast), f.Name, "every line is logged",
+					"a line read from the plugin's stderr can reach the next read without a call on the logger (a skip in front of the level dispatch): records are dropped by a decision made here instead of by the host's logger, e.g. by a level that was looked up once and has changed since", p.PathTo(seen, readN))
+			} else {
+				c.R.Hold("R-TABLE/levels", p.Pos(readN.Ast), f.Name, "every line is logged", "every path from a successful read back to the read passes a logger call", true)
+			}
+		}
+	}
 	if kvOK && msgOK && nJSON >= 5 {
 		c.R.Hold("R-TABLE/levels", p.Pos(f.Node()), f.Name, "JSON record carries message and key/value fields", fmt.Sprintf("%d level calls log entry.Message with the flattened KVPairs", nJSON), true)
 	} else {
@@ -1722,4 +1805,18 @@ func isWrapperSwitch(sw *ast.SwitchStmt) bool {
 	}
 	cc, ok := sw.Body.List[0].(*ast.CaseClause)
 	return ok && cc.List == nil
+}
+
+// assignedErrVar: the error-typed variable on the left of the assignment in n.
+func assignedErrVar(info *types.Info, n ast.Node) *types.Var {
+	as, ok := n.(*ast.AssignStmt)
+	if !ok {
+		return nil
+	}
+	for _, l := range as.Lhs {
+		if v, ok := identObj(info, l).(*types.Var); ok && isErrorType(v.Type()) {
+			return v
+		}
+	}
+	return nil
 }
